@@ -10,6 +10,7 @@ TEMPLATE = r'''
 use vstd::prelude::*;
 use std::collections::VecDeque;
 use std::collections::HashMap;
+use std::collections::HashSet;
 use vstd::std_specs::hash::*;
 verus! {
 broadcast use vstd::std_specs::hash::group_hash_axioms;
@@ -227,6 +228,23 @@ impl<T: Clone> VersionChain<T> {
 @@EdgeId@@
 // E1 stand-ins: the records are opaque; LpgStore is reduced to the two maps the function touches (locks dropped, FxHashMap -> std HashMap)
 #[verifier::external_body] pub struct NodeRecord { _p: () }
+impl NodeRecord {
+    pub uninterp spec fn deleted(&self) -> bool;
+    #[verifier::external_body] pub fn is_deleted(&self) -> (r: bool) ensures r == self.deleted() { unimplemented!() }
+}
+#[verifier::external_body] fn collect_node_props(ps: &PropertyStorage, id: NodeId) -> PropertyMap { unimplemented!() }
+/// grafeo_core::graph::lpg::Node (E1: SmallVec -> Vec, BTreeMap -> opaque)
+pub struct Node { pub id: NodeId, pub labels: Vec<ArcStr>, pub properties: PropertyMap }
+impl Node {
+    #[verifier::external_body] pub fn new(id: NodeId) -> (r: Node) ensures r.id == id { unimplemented!() }
+}
+/// WHAT A READER MAY SEE OF A NODE (C01): the node exists for the reader iff its chain has a version the reader may see and the newest such version is not a deletion
+pub open spec fn node_seen(nodes: Map<NodeId, VersionChain<NodeRecord>>, id: NodeId, k: int, r: Option<Node>) -> bool {
+    match r {
+        Some(n) => nodes.contains_key(id) && 0 <= k < nodes[id].versions@.len() && !nodes[id].versions@[k].data.deleted() && n.id == id,
+        None => !nodes.contains_key(id) || k < 0 || (k < nodes[id].versions@.len() && nodes[id].versions@[k].data.deleted()),
+    }
+}
 // of EdgeRecord the fields the store-level getters read (E1: flags / property arena fields stay opaque behind `deleted()`)
 #[verifier::external_body] pub struct EdgeRest { _p: () }
 pub struct EdgeRecord { pub id: EdgeId, pub src: NodeId, pub dst: NodeId, pub type_id: u32, pub rest: EdgeRest }
@@ -260,6 +278,9 @@ pub struct LpgStore {
     pub edges: HashMap<EdgeId, VersionChain<EdgeRecord>>,
     pub id_to_edge_type: Vec<ArcStr>,
     pub edge_properties: PropertyStorage,
+    pub id_to_label: Vec<ArcStr>,
+    pub node_labels: HashMap<NodeId, HashSet<u32>>,
+    pub node_properties: PropertyStorage,
 }
 pub proof fn axiom_id_keys() ensures obeys_key_model::<NodeId>(), obeys_key_model::<EdgeId>() { admit(); }
 pub assume_specification<'a, K, V, S, A, Q>[ HashMap::<K, V, S, A>::get_mut::<Q> ](m: &'a mut HashMap<K, V, S, A>, k: &Q) -> (r: Option<&'a mut V>)
@@ -300,6 +321,10 @@ impl<T> VersionChain<T> {
 }
 impl LpgStore {
     @@LpgStore::discard_uncommitted_versions@@
+
+    @@LpgStore::get_node_at_epoch@@
+
+    @@LpgStore::get_node_versioned@@
 
     @@LpgStore::get_edge_at_epoch@@
 
@@ -472,6 +497,22 @@ def build(repo):
         g.ensures('shows_exactly_what_the_reader_may_see', 'edge_seen(self.edges@, self.id_to_edge_type@, id, if self.edges@.contains_key(id) { %s } else { -1 }, r)' % spec)
         g.body_start('proof { axiom_id_keys(); }')
         g.after('let record = chain.visible_', 'proof { %s; assert(*chain == self.edges@[id]); }' % ('lemma_first_at_char(infos(chain.versions@), epoch)' if name == 'get_edge_at_epoch' else 'lemma_first_vis_char(infos(chain.versions@), epoch, tx_id)'))
+    u.trust('external_body NodeRecord::is_deleted', 'E1: the flag test as an uninterpreted predicate of the record'); u.trust('external_body collect_node_props', 'E1: the (single-version) property side table, not constrained')
+    u.trust('external_body Node::new', 'E1: plain constructor')
+    for name, spec in (('get_node_at_epoch', 'first_at(infos(self.nodes@[id].versions@), epoch)'), ('get_node_versioned', 'first_vis(infos(self.nodes@[id].versions@), epoch, tx_id)')):
+        g = u.method(ST, 'LpgStore', name).D1().R1().ret('r').props('C01')
+        g.resub('E3', r'[ \t]*let nodes = self\.nodes\.read\(\);\n', '')
+        g.resub('E3', r'(?<![\.\w])nodes\.get\(', 'self.nodes.get(')
+        g.resub('E3', r'[ \t]*let id_to_label = self\.id_to_label\.read\(\);\n', '')
+        g.resub('E3', r'[ \t]*let node_labels = self\.node_labels\.read\(\);\n', '')
+        g.resub('E3', r'(?<![\.\w])node_labels\.get\(', 'self.node_labels.get(')
+        g.resub('E3', r'(?<![\.\w])id_to_label\.get\(', 'self.id_to_label.get(')
+        g.resub('R2', r'in label_ids \{', 'in label_ids.iter() {')
+        g.resub('E1', r'self\.node_properties\.get_all\(id\)\.into_iter\(\)\.collect\(\)', 'collect_node_props(&self.node_properties, id)')
+        g.ensures('shows_exactly_what_the_reader_may_see', 'node_seen(self.nodes@, id, if self.nodes@.contains_key(id) { %s } else { -1 }, r)' % spec)
+        g.body_start('proof { axiom_id_keys(); }')
+        g.after('let record = chain.visible_', 'proof { %s; assert(*chain == self.nodes@[id]); }' % ('lemma_first_at_char(infos(chain.versions@), epoch)' if name == 'get_node_at_epoch' else 'lemma_first_vis_char(infos(chain.versions@), epoch, tx_id)'))
+        g.loop(0).kind('for').invariant('id_kept', 'node.id == id')
     def loops(base, keys, rkeys, M, M0, T, KT, i, j):
         L = f.loop('in 0..%s.len()' % keys).kind('for').props('C02')
         L.invariants(('keys', 'obeys_key_model::<%s>() && %s@.no_duplicates() && (forall|k: %s| #[trigger] %s@.contains(k) <==> %s.contains_key(k))' % (KT, keys, KT, keys, M0)),
